@@ -52,7 +52,65 @@ type ReplayFile struct {
 	Note      string            `json:"note,omitempty"`
 }
 
-func RunOne(t *testing.T, job *Job, run uint64, rf *ReplayFile) (res RunResult) {
+// RunOne executes one seed. World "mgr" (C17) is a twin run: the same seed is executed twice,
+// through the manager and directly on the engines, and the two event logs must be identical.
+func RunOne(t *testing.T, job *Job, run uint64, rf *ReplayFile) RunResult {
+	if (job.World != "mgr" && !(rf != nil && rf.World == "mgr")) || os.Getenv("VERIF_MGR_SINGLE") != "" {
+		res, _ := runOnce(t, job, run, rf)
+		return res
+	}
+	ja, jb := *job, *job
+	ja.Override = map[string]string{"mgr_mode": "manager"}
+	jb.Override = map[string]string{"mgr_mode": "engine"}
+	if v := os.Getenv("VERIF_MGR_SAME"); v != "" { // debugging aid: choose the modes of the twin, e.g. "engine,engine"
+		ms := strings.Split(v, ",")
+		ja.Override["mgr_mode"], jb.Override["mgr_mode"] = ms[0], ms[len(ms)-1]
+	}
+	for k, v := range job.Override {
+		if k != "mgr_mode" {
+			ja.Override[k], jb.Override[k] = v, v
+		}
+	}
+	ja.DumpLog, jb.DumpLog = true, true
+	ra, la := runOnce(t, &ja, run, rf)
+	rb, lb := runOnce(t, &jb, run, rf)
+	ra.Judged["C17.twin_run"]++
+	if len(ra.Violations) == 0 && len(ra.Infra) == 0 && len(rb.Infra) == 0 {
+		diff := ""
+		for i := 0; i < len(la) || i < len(lb); i++ {
+			var a, b string
+			if i < len(la) {
+				a = la[i]
+			}
+			if i < len(lb) {
+				b = lb[i]
+			}
+			if a != b {
+				diff = fmt.Sprintf("first difference at log line %d: via manager %q, on the engine %q", i, a, b)
+				break
+			}
+		}
+		if diff != "" {
+			ra.Violations = append(ra.Violations, Violation{Property: "C17", Oracle: "C17.manager_differs_from_engine", Facts: map[string]any{}, Message: "the same seeded operation sequence gives different results/events through Manager.X(tableID, ...) and on the engine itself: " + diff, AtMs: ra.SimMs})
+			ra.Streams = rb.Streams
+		}
+	}
+	ra.Infra = append(ra.Infra, rb.Infra...)
+	ra.WallMs += rb.WallMs
+	if !job.DumpLog {
+		if len(ra.Violations) == 0 && !job.KeepAll {
+			ra.EventTail = nil
+			ra.Streams = nil
+			ra.Schedule = nil
+		} else if len(ra.EventTail) > tailLen {
+			ra.EventTail = ra.EventTail[len(ra.EventTail)-tailLen:]
+		}
+	}
+	return ra
+}
+
+func runOnce(t *testing.T, job *Job, run uint64, rf *ReplayFile) (res RunResult, fullLog []string) {
+	defer func() { fullLog = res.fullLog; res.fullLog = nil }()
 	start := time.Now()
 	res = RunResult{World: job.World, Seed: job.Seed, Run: run, Config: map[string]any{}, Stats: map[string]int64{}, Faults: map[string]int64{}, Judged: map[string]int64{}, Probes: map[string]int64{}, Inconclusive: map[string]int64{}}
 	wf, ok := worlds[job.World]
@@ -143,6 +201,8 @@ func RunOne(t *testing.T, job *Job, run uint64, rf *ReplayFile) (res RunResult) 
 		res.Stats["lockwaits"] = sch.LockWaits
 		res.Stats["tasks"] = sch.Spawned
 		res.Stats["switch_pairs"] = int64(sch.SwitchPairs())
+		res.Stats["maporder_draws"] = int64(st.Get("maporder").Count())
+		res.Stats["sched_draws"] = int64(st.Get("sched").Count())
 		if sch.BudgetHit {
 			res.Inconclusive["step_budget"]++
 		}
@@ -164,6 +224,7 @@ func RunOne(t *testing.T, job *Job, run uint64, rf *ReplayFile) (res RunResult) 
 		}
 		if job.DumpLog {
 			res.EventTail = c.full
+			res.fullLog = c.full
 		}
 	}
 	_ = finished
